@@ -519,8 +519,11 @@ fn as_x(v: &V) -> &N {
 pub fn key_cmp(a: &Value, b: &Value) -> std::cmp::Ordering {
     match (a, b) {
         (Value::Number(x), Value::Number(y)) => {
-            if num_eq(x, y) {
-                std::cmp::Ordering::Equal
+            // ordering is exact (the tolerance of '==' does not apply to sort/max/min)
+            if let (Some(a), Some(b)) = (x.as_i64(), y.as_i64()) {
+                a.cmp(&b)
+            } else if let (Some(a), Some(b)) = (x.as_u64(), y.as_u64()) {
+                a.cmp(&b)
             } else {
                 num_f(x).partial_cmp(&num_f(y)).unwrap()
             }
